@@ -13,12 +13,14 @@ namespace Redka.ConcJudge
 
 open Redka Redka.Proto
 
+/-- one event of a history: a single operation, or (over the wire) a MULTI…EXEC block, which takes
+effect as one unit: its commands in order inside one transaction (`steps` has several entries) -/
 structure Ev where
   call : Int
   ret : Int
   client : Int
-  op : Op
-  res : Out
+  steps : List (Op × Out)
+  block : Bool
 
 def outSame : Out → Out → Bool
   | .ok a, .ok b => a == b
@@ -29,6 +31,20 @@ def eraseIdx {α} : List α → Nat → List α
   | [], _ => []
   | _ :: xs, 0 => xs
   | x :: xs, n + 1 => x :: eraseIdx xs n
+
+/-- the tables after the event, when the model reproduces every observed result. A single
+operation is `DB.Update`-wrapped (`Model.dbRun`); the commands of a block run at `Tx` level inside
+the one transaction of `handleMulti`, which commits when no command reports an error to it (the
+generated blocks hold commands whose "nothing there" outcomes are nil replies, not errors). -/
+def runEv (now : Int) (e : Ev) (db : DB) : Option DB :=
+  if !e.block then
+    match e.steps with
+    | [(op, res)] => let r := Model.dbRun op now db; if outSame r.out res then some r.db else none
+    | _ => none
+  else
+    e.steps.foldlM (fun (d : DB) (s : Op × Out) =>
+      let r := Model.tx true s.1 now d
+      if outSame r.out s.2 then some r.db else none) db
 
 /-- can the pending operations be ordered, respecting real time, so that the model started in
 `db` reproduces every result and ends in `final`? -/
@@ -45,20 +61,39 @@ def search (now : Int) (final : Spec.State) : Nat → List Ev → DB → Bool
           -- `e` may come first iff no other pending operation returned before `e` was called
           if e.call > minRet && e.ret != minRet then false
           else
-            let r := Model.dbRun e.op now db
-            outSame r.out e.res && search now final fuel (eraseIdx pending i) r.db)
+            match runEv now e db with
+            | some db' => search now final fuel (eraseIdx pending i) db'
+            | none => false)
 
-def pEv : P Ev := do
-  let call ← pInt; let ret ← pInt; let client ← pInt
+def pStep : P (Op × Out) := do
   let op ← pOp
   expect "=>"
   let res ← pOut
-  pure { call, ret, client, op, res }
+  pure (op, res)
+
+/-- `<call> <ret> <client> <op…> => <result>` or `<call> <ret> <client> B <n> <op…> => <result> && …` -/
+def pEv : P Ev := do
+  let call ← pInt; let ret ← pInt; let client ← pInt
+  match (← get) with
+  | "B" :: _ =>
+    expect "B"
+    let n ← pNat
+    let rec go : Nat → List (Op × Out) → P (List (Op × Out))
+      | 0, acc => pure acc.reverse
+      | k + 1, acc => do
+        let s ← pStep
+        if k > 0 then expect "&&"
+        go k (s :: acc)
+    let steps ← go n []
+    pure { call, ret, client, steps, block := true }
+  | _ =>
+    let s ← pStep
+    pure { call, ret, client, steps := [s], block := false }
 
 def isLockError (e : Ev) : Bool :=
-  match e.res with
-  | .error .sqlOther => true
-  | _ => false
+  e.steps.any (fun s => match s.2 with
+    | .error .sqlOther => true
+    | _ => false)
 
 /-- `CONC seq now cfg | pre | events | post` -/
 def judge (line : String) : String :=
@@ -66,6 +101,8 @@ def judge (line : String) : String :=
   | [hdr, preS, evS, postS] =>
     match (hdr.splitOn " ").filter (· ≠ "") with
     | [_, seq, nowS, cfg] =>
+      -- a client of the real server got no well-formed reply while others were running
+      if postS.startsWith "BROKEN" then s!"{seq} L=0 E=1 I=1 n=0 K=" else
       match nowS.toInt?, runP pDump preS, runP pDump postS with
       | some now, .ok pre, .ok post =>
         let evStrs := if evS.trimAscii.toString.isEmpty then [] else evS.splitOn " ;; "
